@@ -249,5 +249,5 @@ def phases(tier):
     return [
         Phase('name-list-change', check_case, gen=gen_name_list_change(), exhaustive=True),
         Phase('basic-family', check_case, gen=gen_basic(), exhaustive=True),
-        Phase('histories', check_case, strategy=strategy, examples=3000 if quick else 80000),
+        Phase('histories', check_case, strategy=strategy, examples=8000 if quick else 200000),
     ]
